@@ -263,7 +263,7 @@ def generic_lints(ctx: Ctx, rule: str = "lint", kinds=None, scope=None):
     from ..loader import AnalysisError
     from ..scope import in_scope
 
-    if L.self_check() != (17, 0) or L.orientation_self_check() != (1, 0):
+    if L.self_check() != (18, 0) or L.orientation_self_check() != (1, 0):
         raise AnalysisError(f"generic lints: the positive control is no longer recognised {L.self_check()} {L.orientation_self_check()}")
     n, hits = 0, []
     members = []
@@ -308,7 +308,7 @@ def generic_lints(ctx: Ctx, rule: str = "lint", kinds=None, scope=None):
     for where, kind, why in hits:
         ctx.violated(f"{rule}.{kind}", where, kind, "see cubeverif/lints.py", why)
     if not hits:
-        ctx.held(rule, "this property's code: floor division, int casts, identity with literals, unordered sets", f"{n} functions scanned, none found", "", "positive control: 17 of 17 recognised")
+        ctx.held(rule, "this property's code: floor division, int casts, identity with literals, unordered sets", f"{n} functions scanned, none found", "", "positive control: 18 of 18 recognised")
 
 
 # --------------------------------------------------------------------------- dependency footprints of the measures
@@ -387,7 +387,10 @@ def id_truthiness(ctx: Ctx, rule: str = "id-truthiness"):
         if not in_scope(ctx.prop, short, m.cls.name, m.name):
             continue
         n += 1
-        for _line, context, expr in T.id_truth_tests(m.node):
+        consts = {}
+        for c in reversed(m.cls.mro or [m.cls]):
+            consts.update(c.consts)
+        for _line, context, expr in T.id_truth_tests(m.node, consts):
             hits.append((f"{short}::{m.cls.name}.{m.name} [{expr[:60]}]", context, expr))
     for where, context, expr in hits:
         ctx.violated(rule, where, f"truth test ({context}) of {expr}", "`is None` / membership test", "0 is a valid element id (and '' a valid alias): the reference is treated as unresolvable and the sort / transform silently falls back")
